@@ -233,15 +233,15 @@ func init() {
 					judgeProgram(c, []model.Stmt{model.Text{S: "pre|"}, n, model.Text{S: "|post"}}, data, "else-text", true)
 				}})
 			// (2d) the construct inside a slot body, an insert block, a component file and a layout
-			secs = append(secs, core.Section{Name: "in-template-trees", Exhaustive: true, N: len(ifShapes) * 16 * 4 * 2,
+			secs = append(secs, core.Section{Name: "in-template-trees", Exhaustive: true, N: len(ifShapes) * 16 * 5 * 2,
 				Run: func(c *core.Ctx, i int) {
 					failAt := -1
 					if i%2 == 1 {
 						failAt = (i / 2) % 4
 					}
 					i /= 2
-					place := i % 4
-					i /= 4
+					place := i % 5
+					i /= 5
 					vec := i % 16
 					sh := ifShapes[i/16]
 					vec &= 1<<sh.conds - 1
@@ -270,6 +270,11 @@ func init() {
 					case 3: // layout
 						t.files["layouts/main"] = append(append([]model.Stmt{model.Text{S: "<html>"}}, construct...), model.Reserve{Name: "body"}, model.Text{S: "</html>"})
 						t.files["page"] = []model.Stmt{model.Use{Name: "~main"}, model.Insert{Name: "body", E: model.Lit{V: model.Str("B")}}}
+					case 4: // insert block whose reserve stands in a loop of the layout: the construct is decided anew in every pass
+						perPass := append([]model.Stmt{model.If{Conds: []model.Expr{model.Dot{X: model.Var{Name: "loop"}, Name: "first"}, model.Dot{X: model.Var{Name: "loop"}, Name: "last"}},
+							Bodies: [][]model.Stmt{{model.Text{S: "F"}}, {model.Text{S: "L"}}}, Else: []model.Stmt{model.Print{E: model.Var{Name: "n"}}}}}, construct...)
+						t.files["layouts/main"] = []model.Stmt{model.Text{S: "<html>"}, model.Each{Var: "n", Arr: intArr(1, 2, 3), Body: []model.Stmt{model.Text{S: "("}, model.Reserve{Name: "body"}, model.Text{S: ")"}}}, model.Text{S: "</html>"}}
+						t.files["page"] = []model.Stmt{model.Use{Name: "~main"}, model.Insert{Name: "body", Block: perPass}}
 					}
 					files := t.sources(model.Style{Layout: model.SpaceLayout})
 					tpl, err := loadTree(c, "c02tree", files, ".tw")
@@ -429,10 +434,10 @@ func init() {
 					judgeProgram(c, prog, data, "long-chain", true)
 				}})
 			// (4) ternary over the whole table, arms traced, and failing arms
-			secs = append(secs, core.Section{Name: "ternary", Exhaustive: true, N: len(condTable) * 2 * 7,
+			secs = append(secs, core.Section{Name: "ternary", Exhaustive: true, N: len(condTable) * 2 * 13,
 				Run: func(c *core.Ctx, i int) {
-					variant := i % 7
-					i /= 7
+					variant := i % 13
+					i /= 13
 					asData := i%2 == 1
 					cv := condTable[i/2]
 					data := map[string]model.Value{}
@@ -454,7 +459,23 @@ func init() {
 					case 6:
 						b = model.Binary{Op: "+", L: model.Lit{V: model.Int(1)}, R: model.Lit{V: model.Str("s")}}
 					}
-					e := model.Ternary{C: condExpr(cv.v, 0, asData, data), A: a, B: b}
+					var e model.Expr = model.Ternary{C: condExpr(cv.v, 0, asData, data), A: a, B: b}
+					zero := model.Lit{V: model.Int(0)}
+					switch variant {
+					case 7: // the ternary as a later element of an array literal
+						e = model.Index{X: model.ArrLit{Elems: []model.Expr{model.StrLit{S: "z"}, e}}, I: model.Lit{V: model.Int(1)}}
+					case 8: // as the third element, after another ternary
+						e = model.Call{X: model.ArrLit{Elems: []model.Expr{model.StrLit{S: "z"}, model.Ternary{C: zero, A: model.StrLit{S: "p"}, B: model.StrLit{S: "q"}}, e}}, Name: "join", Args: []model.Expr{model.StrLit{S: "-"}}}
+					case 9: // as a later argument of a call
+						e = model.Call{X: model.Lit{V: model.Bool(false)}, Name: "then", Args: []model.Expr{model.StrLit{S: "no"}, e}}
+					case 10: // as a later value of an object literal
+						e = model.Dot{X: model.ObjLit{Keys: []string{"a", "b"}, Vals: []model.Expr{zero, e}}, Name: "b"}
+					case 11: // as the second argument of truncate (the ellipsis)
+						e = model.Call{X: model.StrLit{S: "abcdef"}, Name: "truncate", Args: []model.Expr{model.Lit{V: model.Int(3)}, e}}
+					case 12: // as a later element of the source of a loop
+						judgeProgram(c, []model.Stmt{model.Text{S: "<"}, model.Each{Var: "el", Arr: model.ArrLit{Elems: []model.Expr{model.StrLit{S: "z"}, e}}, Body: []model.Stmt{model.Print{E: model.Var{Name: "el"}}, model.Text{S: ","}}}, model.Text{S: ">"}}, data, "ternary", true)
+						return
+					}
 					judgeProgram(c, []model.Stmt{model.Text{S: "<"}, model.Print{E: e}, model.Text{S: ">"}}, data, "ternary", true)
 				}})
 			// (5) @breakIf / @continueIf over the whole table
